@@ -33,6 +33,12 @@ func (e *Engine) binop(st *State, op token.Token, a, b Value, t types.Type, inst
 		e.unsupported_(st, "string op "+op.String())
 		return nil
 	}
+	// abi.NoEscape: unsafe.Pointer(uintptr(p) ^ 0)
+	if pa, isPtr := a.(Ptr); isPtr && op == token.XOR {
+		if yt, ok := b.(*Term); ok && yt.IsConst() && yt.val.Sign() == 0 {
+			return pa
+		}
+	}
 	x, okx := a.(*Term)
 	y, oky := b.(*Term)
 	if !okx || !oky {
